@@ -769,6 +769,11 @@ def check_property(pid, tier, res=None, vres=None, quiet=False):
                 props_f |= decl_props.get((t, f.split('::')[-1]), set())
             if pid in props_f:
                 raise Undecided('function %s was left out of the run (proof anchor lost or construct outside the verifier\'s reach) and serves %s' % (f, pid))
+    # a contract entry whose function no longer exists (renamed / inlined / removed): what it proved is gone
+    for u in res['units']:
+        for le in u['model'].info.get('lost_entries', []):
+            if pid in le['props']:
+                raise Undecided('the function %s, whose contract serves %s, no longer exists in the source (renamed, inlined or removed)' % (le['fn'], pid))
     # every function carrying one of my obligations must really have been verified by Verus
     missing = sorted({k[0] for k in mine if k[0] not in res['funcs']})
     if missing:
